@@ -336,58 +336,74 @@ unsafe fn write_all_sub_paths(
         if byte == b'/' {
             // Swap slash for null termination to make a valid path
             buf[ind] = NULL_BYTE;
-
-            return match rusl::unistd::mkdir(
+            let res = rusl::unistd::mkdir(
                 UnixStr::from_bytes_unchecked(&buf[..=ind]),
                 Mode::from(0o755),
-            ) {
+            );
+            // Replace the null byte to make a valid path concatenation
+            buf[ind] = b'/';
+            match res {
                 // Successfully wrote, traverse down
-                Ok(()) => {
-                    // Replace the null byte to make a valid path concatenation
-                    buf[ind] = b'/';
-                    for i in ind + 1..len {
-                        // Found next
-                        if buf[i] == b'/' {
-                            // Swap slash for null termination to make a valid path
-                            buf[i] = NULL_BYTE;
-                            rusl::unistd::mkdir(
-                                UnixStr::from_bytes_unchecked(&buf[..=i]),
-                                Mode::from(0o755),
-                            )?;
-                            // Swap back to continue down
-                            buf[i] = b'/';
-                        }
+                Ok(()) => {}
+                Err(e) => match e.code {
+                    // A parent is missing, keep looking further up
+                    Some(code) if code == Errno::ENOENT => {
+                        it += 1;
+                        continue;
                     }
-                    // if we end on a slash we don't have to write the last part
-                    if unsafe { raw.add(len - 1).read() } == b'/' {
-                        return Ok(());
-                    }
-                    // We know the actual length is len + 1 and null terminated, try write full
-                    rusl::unistd::mkdir(
-                        UnixStr::from_bytes_unchecked(core::slice::from_raw_parts(raw, len + 1)),
+                    // Already there, what's below it still has to be created
+                    Some(code) if code == Errno::EEXIST => {}
+                    _ => return Err(e),
+                },
+            }
+            for i in ind + 1..len {
+                // Found next
+                if buf[i] == b'/' {
+                    // Swap slash for null termination to make a valid path
+                    buf[i] = NULL_BYTE;
+                    let res = rusl::unistd::mkdir(
+                        UnixStr::from_bytes_unchecked(&buf[..=i]),
                         Mode::from(0o755),
-                    )?;
-                    Ok(())
-                }
-                Err(e) => {
-                    if let Some(code) = e.code {
-                        if code == Errno::ENOENT {
-                            it += 1;
-                            // Put slash back, only way we end up here is if we tried to write
-                            // previously replacing the slash with a null-byte
-                            buf[ind] = b'/';
-                            continue;
-                        } else if code == Errno::EEXIST {
-                            return Ok(());
-                        }
+                    );
+                    // Swap back to continue down
+                    buf[i] = b'/';
+                    match res {
+                        Ok(()) => {}
+                        // Repeated separators name the same directory twice
+                        Err(e) if e.code == Some(Errno::EEXIST) => {}
+                        Err(e) => return Err(e),
                     }
-                    Err(e)
                 }
-            };
+            }
+            return mkdir_leaf(raw, len);
         }
         it += 1;
     }
-    Ok(())
+    // No separator below the first byte, there's only the last part to write
+    mkdir_leaf(raw, len)
+}
+
+/// Creates the full path, it's fine if it's already there as long as it's a directory.
+#[inline]
+unsafe fn mkdir_leaf(raw: *const u8, len: usize) -> core::result::Result<(), rusl::Error> {
+    // if we end on a slash we don't have to write the last part
+    if unsafe { raw.add(len - 1).read() } == b'/' {
+        return Ok(());
+    }
+    // We know the actual length is len + 1 and null terminated, try write full
+    let full = UnixStr::from_bytes_unchecked(core::slice::from_raw_parts(raw, len + 1));
+    match rusl::unistd::mkdir(full, Mode::from(0o755)) {
+        Ok(()) => Ok(()),
+        Err(e) if e.code == Some(Errno::EEXIST) => {
+            let stat = rusl::unistd::stat(full)?;
+            if Mode::from(stat.st_mode) & Mode::S_IFMT == Mode::S_IFDIR {
+                Ok(())
+            } else {
+                Err(e)
+            }
+        }
+        Err(e) => Err(e),
+    }
 }
 
 pub struct Directory(OwnedFd);
